@@ -55,6 +55,27 @@ import (
 //   - the stored reports of one mailbox come in delivery order.
 //
 // The relative order of reports about different messages is not judged otherwise.
+//
+// Flood rounds (added after seeded change C16-13: the per-listener queue of the dispatch was given
+// a "backlog limit" - beyond 1024 waiting calls the oldest waiting call was discarded, so a listener
+// that was held up on one invocation while a burst of mail arrived and left never heard of the
+// oldest stored / deleted events).  The statement says "every message ... exactly one stored event
+// ... exactly one deleted event" without any bound on how far a listener may lag behind: the events
+// owed to a slow listener are owed however many of them have piled up.  The gate rounds above hold
+// the script while a handful of events is emitted, the slow-listener streams reach backlogs of
+// some hundred; nothing ever made a listener wait behind thousands.  In a few luagate histories
+// (memory store, every cap of the stream, every GOMAXPROCS) one round is a flood round: while the
+// script is held in its hook the client delivers 800-2000 small messages to one further mailbox
+// and - without a cap always, with a cap sometimes - purges it, i.e. 1500-4000 stored and deleted
+// events (cap evictions / purge) are emitted for the held script.  Then the gate opens and the
+// oracle above is applied unchanged: every one of those messages reported stored once, every
+// departed one deleted once, stored before deleted, stored reports in delivery order.
+const luaFloodBox = "lflood"
+
+// luaFlood says whether history idx of stream luagate has a flood round.  idx%26 == 0 is the memory
+// store with cap 0,1,2,3 and GOMAXPROCS 1,16,4,2 in turn, and four different children in the quick tier.
+func luaFlood(idx int) bool { return idx%26 == 0 }
+
 const luaScript = `
 local sid = tostring({})
 local function work(msg, mark)
@@ -601,6 +622,11 @@ func runLuaGate(c *fw.Ctx, idx int, r *fw.Rand) {
 	rounds := r.Range(3, 7)
 	shape := map[string]bool{}
 	var whileHeld, heldS, heldD, leftWhileHeld int64
+	floodRound := -1
+	if luaFlood(idx) && backend == "mem" {
+		floodRound = r.Intn(rounds)
+	}
+	var floodEvents, floodPending int64
 
 	for round := 0; round < rounds && !w.bad; round++ {
 		box := boxes[r.Intn(2)]
@@ -703,6 +729,36 @@ func runLuaGate(c *fw.Ctx, idx int, r *fw.Rand) {
 				}
 			}
 		}
+		if round == floodRound && !w.bad {
+			// Flood round: thousands of stored and deleted events pile up behind the held hook.
+			n := r.Range(800, 2000)
+			if capN > 0 {
+				n = r.Range(1000, 2000) // n stored + n-cap deleted by the cap
+			}
+			emitted := int64(0)
+			for j := 0; j < n && !w.bad; j++ {
+				if _, ok := w.deliver(luaFloodBox, "w=0", r); ok {
+					emitted++
+					if capN > 0 && j >= capN {
+						emitted++
+					}
+				}
+			}
+			if !w.bad && (capN == 0 || r.Bool()) {
+				if ids, ok := w.list(luaFloodBox); ok {
+					w.purge(luaFloodBox, r.Bool())
+					emitted += int64(len(ids))
+				}
+			}
+			shape["flood:"+kind] = true
+			left = true
+			floodEvents += emitted
+			// what the script has not been told yet when the gate opens (it is held: normally all of it)
+			if p := emitted - int64(w.tap.count()-at-1); p > floodPending {
+				floodPending = p
+			}
+			w.logf("round %d: flood of %d deliveries to %s, %d events emitted while the script is held", round, n, luaFloodBox, emitted)
+		}
 		if w.bad {
 			w.gate <- lua.LTrue
 			break
@@ -737,6 +793,11 @@ func runLuaGate(c *fw.Ctx, idx int, r *fw.Rand) {
 	c.Count("luagate_held_in_deleted_hook", heldD)
 	c.Count("luagate_rounds_message_left_while_script_held", leftWhileHeld)
 	c.Count("luagate_reports_while_script_held", whileHeld)
+	if floodRound >= 0 && !w.bad {
+		c.Count("luagate_flood_rounds", 1)
+		c.Count("luagate_flood_events_emitted_while_script_held", floodEvents)
+		c.Max("max_luagate_flood_events_pending_when_gate_opened", floodPending)
+	}
 	var sh []string
 	for s := range shape {
 		sh = append(sh, s)
